@@ -20,7 +20,9 @@ EncList(Op(_), xs) == Flat([i \in DOMAIN xs |-> Op(xs[i])])
 
 \* ---------------------------------------------------------------- match
 HeaderWord(f) == f.Class \o << f.Field[1] * 2 + Bool01(f.HasMask), f.Length[1] >>
-EncOxm(f) == LET pl == f.Value \o (IF f.HasMask THEN f.Mask ELSE <<>>) IN
+\* experimenter class (0xffff): the experimenter id follows the header and is counted in the length
+EncOxm(f) == LET pl == (IF f.Class = <<255, 255>> /\ Has(f, "ExperimenterID") THEN f.ExperimenterID ELSE <<>>)
+                       \o f.Value \o (IF f.HasMask THEN f.Mask ELSE <<>>) IN
              f.Class \o << f.Field[1] * 2 + Bool01(f.HasMask), Len(pl) >> \o pl
 EncMatch(m) == LET body == EncList(EncOxm, m.Fields) IN Pad8(<<0, 1>> \o BE16(4 + Len(body)) \o body)
 
